@@ -31,39 +31,9 @@ def run(ctx):
         cov[kind] = S.judge(ctx, res, kind, focus=conflicts)
         cov[kind]['sample'] = res[0]['sig'][:25]
     # thread schedules of two or more committers on every bundled storage (file, mapping, demo)
-    import os
-    import random
-    from .. import par
-    from ..drivers import commitconc, scripts as sc
-    rng = random.Random(ctx.seed * 19 + 4)
-    jobs = []
-    for i in range(90 if q else 3000):
-        kind = ('file', 'mapping', 'demo')[i % 3]
-        jobs.append((kind, [rng.randint(1, 3) for _ in range(rng.choice((2, 2, 3)))], ctx.seed * 7000 + i,
-                     os.path.join(ctx.scratch, 'cc-%d' % i), {'stick': (0.2, 0.5, 0.8)[(i // 3) % 3]}))
-    sres = par.pmap(commitconc.run, jobs, chunksize=4)
-    good = []
-    for r in sres:
-        if r['outcome'] != 'ok':
-            ctx.violation({'kind': 'commit-sched', 'what': r['outcome'], 'storage': r['kind']},
-                          '%s: scheduler outcome %s (seed %d)' % (r['kind'], r['outcome'], r['seed']), replay=r)
-        for th, err in r['errors'].items():
-            ctx.violation({'kind': 'commit-sched', 'what': 'thread-error', 'storage': r['kind'], 'error': err.split(':')[0]},
-                          '%s: thread %s raised %s (seed %d)' % (r['kind'], th, err, r['seed']), replay=r)
-        if r['outcome'] == 'ok' and not r['errors']:
-            good.append(r)
-    cfile = sd.consts('file', NOid=6, MaxTxn=20, MaxRecs=5, MaxClock=8, AtomVals=('v1', 'v2'), RefSets='NoRefs', Cls='MCClsPlain')
-    cmap = sd.consts('mapping', NOid=6, MaxTxn=20, MaxRecs=5, MaxClock=8, AtomVals=('v1', 'v2'), RefSets='NoRefs', Cls='MCClsPlain')
-    gf = [r for r in good if r['kind'] == 'file']
-    gm = [r for r in good if r['kind'] != 'file']
-    bf = sc.evaluate(ctx, 'cc-file', [commitconc.script_for(r) for r in gf], cfile) if gf else []
-    bm = sc.evaluate(ctx, 'cc-map', [commitconc.script_for(r) for r in gm], cmap) if gm else []
-    for r, beh in list(zip(gf, bf)) + list(zip(gm, bm)):
-        for sig, desc in commitconc.judge(r, beh):
-            ctx.violation(sig, '%s (seed %d)' % (desc, r['seed']), replay={'kind': r['kind'], 'seed': r['seed'], 'order': r['finish_order']})
-    cov['committer_schedules'] = {'run': len(sres), 'judged': len(good),
-                                  'with_3_switches': sum(1 for r in good if r.get('switches', 0) >= 3)}
-    ev = sum(v['behaviours'] for v in cov.values() if 'behaviours' in v) + len(sres)
+    from ..drivers import commitconc
+    cov['committer_schedules'] = commitconc.explore(ctx, ('file', 'mapping', 'demo'), 90 if q else 3000, 'cc')
+    ev = sum(v['behaviours'] for v in cov.values() if 'behaviours' in v) + cov['committer_schedules']['run']
     return ctx.finish({
         'evaluations': ev,
         'distinct_nontrivial': sum(v.get('nontrivial', 0) for v in cov.values()) + cov['committer_schedules']['with_3_switches'],
